@@ -573,9 +573,15 @@ func monitorC09(cfg CheckConfig, res *hx.Result, traces []*Trace) error {
 				stop := false
 				for k := range got {
 					if got[k] != base[k] {
-						ops := append(append([]*Op{}, t.H.Ops[:at+1]...), &Op{Kind: "state"})
-						ops = append(ops, t.H.Ops[at+1:k+1]...)
 						what := fmt.Sprintf("replicas diverge (replica restarted from its state file after op %d vs replica that kept running) at op %d: %s", at, k, t.H.Ops[k].Line(t.U))
+						var ops []*Op
+						if k <= at { // two runs of the same history differ before the restart
+							ops = append(ops, t.H.Ops[:k+1]...)
+							what = fmt.Sprintf("replicas diverge (two runs of the same blocks in fresh apps) at op %d: %s", k, t.H.Ops[k].Line(t.U))
+						} else {
+							ops = append(append(ops, t.H.Ops[:at+1]...), &Op{Kind: "state"})
+							ops = append(ops, t.H.Ops[at+1:k+1]...)
+						}
 						specViolation(cfg, res, "replica-divergence", what, t.U, ops)
 						stop = true
 						break
